@@ -134,6 +134,17 @@ def jsonable_arg(a):
     return {"__": "repr", "v": repr(a)[:60]}
 
 
+def fd_table():
+    """{fd: what it is open on} of this process (the descriptor of the listing itself left out)."""
+    out = {}
+    for n in os.listdir("/proc/self/fd"):
+        try:
+            out[int(n)] = os.readlink("/proc/self/fd/" + n)
+        except OSError:
+            pass            # the listing's own descriptor
+    return out
+
+
 def run_native_fuzz(shard, acc):
     env = setup()
     mod = env["cext"] if shard["mod"] == "linux" else env["cposix"]
@@ -185,6 +196,7 @@ def run_native_fuzz(shard, acc):
         head = combos[:1 + len(pool)]
         rest = combos[1 + len(pool):]
         combos = head + rng.sample(rest, 150)
+    fds = fd_table()
     for args in combos:
         case = dict(kind="native", mod=shard["mod"], fn=fname, args=[jsonable_arg(a) for a in args])
         harness.mark_current(case)
@@ -196,6 +208,16 @@ def run_native_fuzz(shard, acc):
             out = type(e).__name__
             if isinstance(e, (SystemExit, KeyboardInterrupt, MemoryError)):
                 acc.viol(f"native_{out}:{fname}", f"{fname}{case['args']!r} raised {e!r}", case)
+        # descriptor accounting: whatever the outcome, the call neither keeps a descriptor nor closes one it does not own
+        fds1 = fd_table()
+        acc.count("descriptor_tables_compared")
+        if fds1 != fds:
+            lost = {k: v for k, v in fds.items() if fds1.get(k) != v}
+            new = {k: v for k, v in fds1.items() if fds.get(k) != v}
+            acc.viol(f"descriptor_table_changed:{fname}:{'closed_foreign' if lost else 'left_open'}",
+                     f"{fname}{case['args']!r} -> {out}; descriptors that were open before and are not (the same) any more: "
+                     f"{lost}; new ones: {new}", case)
+            fds = fds1
         if out == "value" and fname == "proc_cpu_affinity_set" and len(args) == 2 and args[0] == child:
             # integer truncation monitor: a value that is not a CPU number must never select a CPU
             try:
@@ -250,17 +272,31 @@ def run_wrapper_fuzz(shard, acc):
             calls.append((getattr(q, m), [m]))
         for f in (ps.users, ps.disk_partitions, lambda: ps.disk_partitions(all=True), ps.net_if_addrs, ps.net_if_stats, ps.swap_memory):
             calls.append((f, [getattr(f, "__name__", "lambda")]))
+    fds = fd_table()
     for fn, args in calls:
         case = dict(kind="wrapper", fn=name, args=[jsonable_arg(a) for a in args])
         harness.mark_current(case)
         acc.count("native_calls")
         try:
-            fn()
+            v = fn()
+            if hasattr(v, "__next__"):
+                list(v)
+            del v
             out = "value"
         except BaseException as e:  # noqa: BLE001
             out = type(e).__name__
             if isinstance(e, (SystemExit, KeyboardInterrupt, MemoryError)):
                 acc.viol(f"wrapper_{out}:{name}", f"{name}{case['args']!r} raised {e!r}", case)
+            del e
+        fds1 = fd_table()
+        acc.count("descriptor_tables_compared")
+        if fds1 != fds:
+            lost = {k: v for k, v in fds.items() if fds1.get(k) != v}
+            new = {k: v for k, v in fds1.items() if fds.get(k) != v}
+            acc.viol(f"descriptor_table_changed:{name}:{'closed_foreign' if lost else 'left_open'}",
+                     f"{name}{case['args']!r} -> {out}; descriptors that were open before and are not (the same) any more: "
+                     f"{lost}; new ones: {new}", case)
+            fds = fds1
         acc.count("outcome_" + out)
         acc.case(case, True, ())
     harness.mark_current(None)
